@@ -83,7 +83,7 @@ def report(pid: str, tier: str, res: dict, wall: float) -> int:
         print(f"... and {len(by_sig) - 25} further distinct violation signatures")
     cov = dict(res["coverage"])
     cov["violation_signatures"] = len(by_sig)
-    if pid != "EXTRA":   # EXTRA covers behaviours beyond the listed properties: no evidence file, not in MANIFEST
+    if pid not in ("EXTRA", "SESS19", "SESS07"):   # EXTRA covers behaviours beyond the listed properties: no evidence file, not in MANIFEST
         common.write_evidence(pid, tier, res.get("level", "model_checking"), cov, wall, len(new), res.get("assumptions"))
     print(f"{pid} [{tier}] {'FAIL' if new else 'ok'}: {res.get('headline', '')} ({wall:.1f}s)")
     return 1 if new else 0
